@@ -44,6 +44,40 @@ def NulFree (b : Bytes) : Prop := ∀ c ∈ b, c ≠ 0
 /-- a memory buffer whose length fits `size_t` -/
 def SizeOk (b : Bytes) : Prop := b.length < 2 ^ 64
 
+/-- side conditions under which the callee models mean what the property says: a custom type is not named like a
+    built-in type, a string value holds no NUL before its end, a buffer's length fits `size_t` -/
+def MVal.Valid : MVal → Prop
+  | .obj ty _ _ => ty ∉ builtinTypeNames
+  | .str s => NulFree (cstrContent s)
+  | .mem b => SizeOk b
+  | _ => True
+
+/-- THE PROPERTY as one function: what `a.equals(b)` must answer for every ordered pair of values (`a` is the
+    expectation at the only call site).  Integers of any two integer types: the same mathematical integer; bool /
+    pointers: identity within the own type; strings: content; buffers: length and content; doubles: the LEFT
+    operand's tolerance, NaN equal to nothing (`doublesEqual` is the class logic over the hardware comparison);
+    objects of the same type: the LEFT operand's comparator, none = never equal; everything else: never equal. -/
+def specEq : MVal → MVal → Bool
+  | .bool x, .bool y => x == y
+  | .dbl v t, .dbl w _ => doublesEqual floatClose v w t
+  | .str x, .str y => cstrContent x == cstrContent y
+  | .ptr x, .ptr y => x == y
+  | .cptr x, .cptr y => x == y
+  | .fptr x, .fptr y => x == y
+  | .mem x, .mem y => x.length == y.length && x == y
+  | .obj t1 x c, .obj t2 y _ => t1 == t2 && (match c with | some f => f x y | none => false)
+  | a, b =>
+    match denote? a, denote? b with
+    | some x, some y => x == y
+    | _, _ => false
+
+def MVal.isDbl : MVal → Bool
+  | .dbl _ _ => true
+  | _ => false
+def MVal.isObj : MVal → Bool
+  | .obj _ _ _ => true
+  | _ => false
+
 /-- the integer a getter result stands for, by the signedness of the getter's return type -/
 def resultInt (signed : Bool) {w : Nat} (n : BitVec w) : Int := if signed then n.toInt else (n.toNat : Int)
 
